@@ -521,6 +521,18 @@ def table_verdict(f, fn, want):
                 "imprecision": it.imprecise}
 
 
+# what each assertion's payload consists of, constructor layers looked through (construct_nf)
+TO_PAYLOAD = {
+    SL + "PrefixAssertion::to_payload":
+        "payload::Payload::Origin{0: payload::RouteOrigin::RouteOrigin{prefix: self.prefix, asn: self.asn}}",
+    SL + "BgpsecAssertion::to_payload":
+        "payload::Payload::RouterKey{0: payload::RouterKey::RouterKey{key_identifier: self.ski, asn: self.asn, "
+        "key_info: self.router_public_key.0}}",
+    SL + "AspaAssertion::to_payload":
+        "payload::Payload::Aspa{0: payload::Aspa::Aspa{customer: self.customer_asn, providers: self.provider_asns}}",
+}
+
+
 def run(ctx):
     f = ctx.facts()
     ctx.rule("R-REG", "complete decision table by abstract interpretation equals the spec table")
@@ -556,40 +568,39 @@ def run(ctx):
     check_container_drop(ctx, f)
     sb = f.body(SL + "SlurmFile::drop_payload")
     if sb is not None:
-        vals = [render(t) for _, _, t in success_values(sb)]
-        allv = set()
-        for c in sb.calls():
-            if c.is_static and not sb.is_cleanup(c.bb):
-                allv.add((c.res, tuple(K.alpha(x, sb) for x in K.arg_renders(c))))
-        ctx.ob("R-FLOW", "SlurmFile::drop_payload:delegates", allv == {(VOF + "::drop_payload", ("self.filters", "%2"))},
-               "SlurmFile::drop_payload is the filters' verdict on the same payload", where=sb.loc, detail=sorted(map(str, allv)))
+        ctx.saw_fn(sb.name)
+        vals = [K.alpha(render(construct_nf(f, t)), sb) for _, _, t in raw_success_values(sb)]
+        straight = not any(bl["term"]["t"] == "switch" for bl in sb.blocks if not bl.get("cleanup"))
+        ok = straight and vals == ["ValidationOutputFilters::drop_payload(self.filters, %2)"]
+        ctx.ob("R-FLOW", "SlurmFile::drop_payload:delegates", ok,
+               "SlurmFile::drop_payload is the filters' verdict on the same payload", where=sb.loc,
+               detail={"returns": vals, "unconditional": straight})
 
     # ---- C15.c assertions carry their fields ---------------------------------------------
-    want = {
-        SL + "PrefixAssertion::to_payload": ("rtr::payload::Payload::origin", ["self.prefix", "self.asn"]),
-        SL + "BgpsecAssertion::to_payload": ("rtr::payload::Payload::router_key", ["self.ski", "self.asn", "self.router_public_key.0"]),
-        SL + "AspaAssertion::to_payload": ("rtr::payload::Payload::aspa", ["self.customer_asn", "self.provider_asns"]),
-    }
-    for fn, (ctor, args) in want.items():
+    want = TO_PAYLOAD
+    for fn, nf in want.items():
         b = f.body(fn)
         if b is None:
             ctx.missing("R-FLOW", short(fn), fn)
             continue
         ctx.saw_fn(fn)
-        vals = [t for _, _, t in success_values(b)]
-        ok = len(vals) == 1 and vals[0][0] == "call" and vals[0][1] == ctor and [render(a) for a in vals[0][2]] == args
-        ctx.ob("R-FLOW", short(fn), ok, "%s builds %s from exactly its own fields %s" % (short(fn), short(ctor), args),
-               where=b.loc, detail=[render(v) for v in vals])
+        vals = [render(construct_nf(f, t)) for _, _, t in raw_success_values(b)]
+        ok = bool(vals) and all(v == nf for v in vals)
+        ctx.ob("R-FLOW", short(fn), ok, "%s builds the payload from exactly its own fields: %s" % (short(fn), nf),
+               where=b.loc, detail=vals)
     # Payload constructors store their arguments
-    for ctor, variant, flds in (("rtr::payload::Payload::origin", "Origin", r"RouteOrigin::new\(prefix, asn\)"),
-                                ("rtr::payload::Payload::router_key", "RouterKey", r"RouterKey::new\(key_identifier, asn, key_info\)"),
-                                ("rtr::payload::Payload::aspa", "Aspa", r"Aspa::new\(customer, providers\)")):
+    for ctor, nf in (("rtr::payload::Payload::origin",
+                      "payload::Payload::Origin{0: payload::RouteOrigin::RouteOrigin{prefix: %1, asn: %2}}"),
+                     ("rtr::payload::Payload::router_key",
+                      "payload::Payload::RouterKey{0: payload::RouterKey::RouterKey{key_identifier: %1, asn: %2, key_info: %3}}"),
+                     ("rtr::payload::Payload::aspa",
+                      "payload::Payload::Aspa{0: payload::Aspa::Aspa{customer: %1, providers: %2}}")):
         b = f.body(ctor)
         if b is None:
             ctx.missing("R-FLOW", short(ctor), ctor)
             continue
-        vals = [render(t) for _, _, t in success_values(b)]
-        ok = len(vals) == 1 and re.match(r"^payload::Payload::%s\{0: %s\}$" % (variant, flds), vals[0]) is not None
+        vals = [K.alpha(render(construct_nf(f, t)), b) for _, _, t in raw_success_values(b)]
+        ok = bool(vals) and all(v == nf for v in vals)
         ctx.ob("R-FLOW", short(ctor), ok, "%s wraps its arguments unchanged" % short(ctor), where=b.loc, detail=vals)
     check_iter_payload(ctx, f, want)
 
@@ -609,10 +620,12 @@ def check_handwritten_serializers(ctx, f):
             fld, val = a[1], a[2]
             n += 1
             guards = [g for g in K.dominating_guards(f, b, c.bb) if not g.startswith("discr(Try::branch(")]
-            m = re.match(r"^%s↓Some\.0$" % PLAIN, val)
+            m = re.match(r"^%s↓Some\.0$" % PLAIN, val) or re.match(r"^Option::(?:unwrap|expect|unwrap_unchecked)\((%s)(?:, [^()]*)?\)$" % PLAIN, val)
             if m:
-                src = val[:-len("↓Some.0")]
-                ok = guards == ["discr(%s) in {1}" % src]
+                src = val[:-len("↓Some.0")] if val.endswith("↓Some.0") else m.group(1)
+                # "src is Some", however it is asked
+                is_some = {"discr(%s) in {1}" % src, "Option::is_some(%s)" % src, "!Option::is_none(%s)" % src}
+                ok = bool(guards) and all(g in is_some for g in guards)
                 what = "is written exactly when %s is Some, with that value" % src
             else:
                 ok = not guards and re.search(r"self\.\w+", val) is not None and "filter" not in val
@@ -639,6 +652,36 @@ def _is_empty_seq(t):
         return True
     if t[0] == "call" and (t[3] or {}).get("name") == "default" and not t[2]:
         return True
+    if t[0] == "call" and (t[3] or {}).get("name") == "index" and len(t[2]) == 2 and _is_empty_seq(t[2][0]):
+        return True         # any sub-slice of an empty sequence
+    return False
+
+
+def _closure_returns(f, fn_term, pred):
+    """Every value the closure returns satisfies `pred` (its element parameter reads `<element>`)."""
+    from engine import sym as symmod
+    t = strip(fn_term)
+    if t[0] != "closure":
+        return False
+    cb, m = K.closure_env(f, t, "<element>")
+    if cb is None:
+        return False
+    with symmod.substituting(m):
+        vals = [v for _, _, v in success_values(cb)]
+        return bool(vals) and all(pred(v) for v in vals)
+
+
+def _mentions(sy, t, rx, depth=0):
+    """Some value the term may stand for is rooted in a place matching rx (locals with several definitions followed)."""
+    if re.search(rx, render(strip_deep(t))):
+        return True
+    if depth > 4:
+        return False
+    for x in walk(strip_deep(t)):
+        if x[0] == "var":
+            for _, dt in sy.defs_of_var(x[2]):
+                if _mentions(sy, dt, rx, depth + 1):
+                    return True
     return False
 
 
@@ -662,6 +705,23 @@ def whole_list(f, b, sy, coll, fname):
     some = r"^self\.%s↓Some\.0$" % re.escape(fname)
     if re.match(some, r):
         return True
+    info = (t[3] or {}) if t[0] == "call" else {}
+    is_fld = lambda x: re.match(fld, render(_unmut(x))) is not None
+    if info and re.match(r"^(std|core)::option::Option", info.get("fn") or "") and t[2] and is_fld(t[2][0]):
+        # the optional list or, when there is none, an empty sequence
+        nm = info.get("name")
+        if nm == "unwrap_or_default" and len(t[2]) == 1:
+            return True
+        if nm == "unwrap_or" and len(t[2]) == 2 and _is_empty_seq(t[2][1]):
+            return True
+        if nm == "unwrap_or_else" and len(t[2]) == 2 and _closure_returns(f, t[2][1], _is_empty_seq):
+            return True
+        if nm == "map_or" and len(t[2]) == 3 and _is_empty_seq(t[2][1]) and \
+                _closure_returns(f, t[2][2], lambda v: render(_unmut(v)) == "<element>"):
+            return True
+    if info.get("name") == "flat_map" and info.get("trait") == "std::iter::Iterator" and len(t[2]) == 2 and is_fld(t[2][0]) \
+            and _closure_returns(f, t[2][1], lambda v: render(_unmut(v)) == "<element>"):
+        return True         # `opt.iter().flat_map(|list| list.iter())` is `opt.iter().flatten()`
     if t[0] == "var":
         defs = sy.defs_of_var(t[2])
         n_some = 0
@@ -690,33 +750,198 @@ def _element_of(t):
     return None
 
 
-def _closure_is_pred(f, ct, payload_text):
-    """A closure `|x| Filter::drop_payload(x, payload)`: returns (callee, ok) — ok iff its result is true exactly when
-    that call is (both directions decided over the closure's paths)."""
+def _closure_pred(f, ct, payload_text):
+    """A closure `|x| Filter::drop_payload(x, payload)` (or its negation): (callee, polarity) — polarity +1 iff its
+    result is true exactly when that call is, -1 iff exactly when it is not (both directions decided over the
+    closure's paths), 0 otherwise."""
     from engine import orderlogic as OL
     from engine import sym as symmod
     from engine.sym import Sym
     cb, m = K.closure_env(f, ct, "<element>")
     if cb is None:
-        return None, False
+        return None, 0
     keys = sorted({c.res for c in cb.calls() if c.is_static and c.name == "drop_payload" and not cb.is_cleanup(c.bb)})
     if len(keys) != 1:
-        return None, False
+        return None, 0
     rx = r"^%s\(<element>, %s\)$" % (re.escape(short(keys[0])), re.escape(payload_text))
     with symmod.substituting(m):
-        ok_t, _ = OL.implies(cb, Sym(cb), True, K.pred_lit(rx, True))
-        ok_f, _ = OL.implies(cb, Sym(cb), False, K.pred_lit(rx, False))
-    return keys[0], ok_t and ok_f
+        for pol, (wt, wf) in ((1, (True, False)), (-1, (False, True))):
+            ok_t, _ = OL.implies(cb, Sym(cb), True, K.pred_lit(rx, wt))
+            ok_f, _ = OL.implies(cb, Sym(cb), False, K.pred_lit(rx, wf))
+            if ok_t and ok_f:
+                return keys[0], pol
+    return keys[0], 0
 
 
-def check_container_drop(ctx, f):
-    from engine import orderlogic as OL
-    from engine.rules import MustPass, guard_edges, pred_matcher
+# -- a small constant propagation over the CFG: which of true / false / Some / None a local holds ----------------------
+# Used to read "what does the function answer once this test came out that way" off the code whatever its shape: early
+# `return true`, a flag that is set and returned at the end, `||` chains, `find(..).is_some()`, …
+
+_T, _F, _SOME, _NONE = "true", "false", "Some", "None"
+
+
+def _cp_operand(op, st):
+    if "k" in op:
+        k = op["k"]
+        if "v" in k and k.get("ty", "bool") == "bool" and k["v"] in (0, 1, True, False):
+            return _T if k["v"] else _F
+        return None
+    pl = op.get("c") or op.get("m")
+    if pl is None:
+        return None
+    v = st.get(pl["l"])
+    if isinstance(v, tuple) and v[0] == "ref" and pl["p"] and all(p[0] == "d" for p in pl["p"]):
+        return st.get(v[1])
+    if pl["p"]:
+        return None
+    return v
+
+
+def _cp_rvalue(rv, st):
+    r = rv["r"]
+    if r == "use":
+        return _cp_operand(rv["op"], st)
+    if r in ("ref", "rawptr"):
+        pl = rv["pl"]
+        if not pl["p"]:
+            return ("ref", pl["l"])
+        v = st.get(pl["l"])
+        if isinstance(v, tuple) and v[0] == "ref" and all(p[0] == "d" for p in pl["p"]):
+            return v
+        return None
+    if r == "un" and rv.get("uop") == "Not":
+        v = _cp_operand(rv["a"], st)
+        return {_T: _F, _F: _T}.get(v)
+    if r == "bin":
+        x, y = _cp_operand(rv["a"], st), _cp_operand(rv["b"], st)
+        op = rv.get("bop")
+        if op == "BitOr":
+            return _T if _T in (x, y) else (_F if x == _F and y == _F else None)
+        if op == "BitAnd":
+            return _F if _F in (x, y) else (_T if x == _T and y == _T else None)
+        if op in ("BitXor", "Ne", "Eq") and x in (_T, _F) and y in (_T, _F):
+            return _T if ((x != y) == (op != "Eq")) else _F
+        return None
+    if r == "discr":
+        pl = rv["pl"]
+        v = st.get(pl["l"])
+        if isinstance(v, tuple) and v[0] == "ref" and pl["p"] and all(p[0] == "d" for p in pl["p"]):
+            v = st.get(v[1])
+        elif pl["p"]:
+            v = None
+        return {_SOME: ("int", 1), _NONE: ("int", 0)}.get(v)
+    if r == "agg" and rv.get("ak") == "adt" and str(rv.get("adt", "")).startswith("std::option::Option"):
+        return _SOME if rv.get("variant") == "Some" else _NONE
+    return None
+
+
+def const_prop(b, start, init, assumed, barrier=()):
+    """Forward constant propagation from block `start` with `init` {local: value}; `assumed` {call block: value} fixes the
+    result of those calls.  Blocks in `barrier` are not entered.  -> (values of the return place at the returns reached,
+    set of blocks reached)."""
+    mutb = K.sym_of(b)._mutb
+    # the start block is run once with the assumption, as a node of its own: when a loop comes back to it, what it then
+    # knows is joined with the other ways of getting there, not with the assumption
+    ENTRY = -1
+    states = {ENTRY: dict(init)}
+    work = [ENTRY]
+    rets = []
+    seen_ret = {}
+
+    def flow(tb, st):
+        if tb in barrier:
+            return
+        old = states.get(tb)
+        if old is None:
+            states[tb] = dict(st)
+            work.append(tb)
+            return
+        new = {l: v for l, v in old.items() if st.get(l) == v}
+        if new != old:
+            states[tb] = new
+            work.append(tb)
+    n = 0
+    while work:
+        n += 1
+        if n > 20000:
+            return [None], set(states) - {ENTRY}
+        bb = work.pop()
+        st = dict(states[bb])
+        if bb == ENTRY:
+            bb = start
+        blk = b.blocks[bb]
+        for s_ in blk["stmts"]:
+            if s_["s"] == "assign":
+                pl = s_["pl"]
+                if pl["p"]:
+                    st.pop(pl["l"], None)
+                    continue
+                v = _cp_rvalue(s_["rv"], st)
+                if v is None or (pl["l"] in mutb and not (isinstance(v, tuple) and v[0] == "ref")):
+                    st.pop(pl["l"], None)
+                else:
+                    st[pl["l"]] = v
+            elif s_["s"] == "setdiscr":
+                st.pop(s_["pl"]["l"], None)
+        t = blk["term"]
+        k = t["t"]
+        if k == "return":
+            seen_ret[bb] = st.get(0)
+        elif k in ("goto", "drop", "assert"):
+            flow(t["target"], st)
+        elif k == "call":
+            d = t["dest"]
+            v = None
+            if bb in assumed:
+                v = assumed[bb]
+            else:
+                fk = t["func"].get("k") if isinstance(t["func"], dict) else None
+                nm = (fk or {}).get("name")
+                kr = (fk or {}).get("res_krate") or (fk or {}).get("krate")
+                if nm in ("is_some", "is_none") and kr in ("core", "std", "alloc") and len(t["args"]) == 1:
+                    x = _cp_operand(t["args"][0], st)
+                    if isinstance(x, tuple) and x[0] == "ref":
+                        x = st.get(x[1])
+                    if x in (_SOME, _NONE):
+                        v = _T if (x == _SOME) == (nm == "is_some") else _F
+            if d["p"] or v is None:
+                st.pop(d["l"], None)
+            else:
+                st[d["l"]] = v
+            if t.get("target") is not None:
+                flow(t["target"], st)
+        elif k == "switch":
+            dv = _cp_operand(t["discr"], st)
+            if dv in (_T, _F):
+                dv = ("int", 1 if dv == _T else 0)
+            if isinstance(dv, tuple) and dv[0] == "int":
+                tgt = t["otherwise"]
+                for v, tb in t["targets"]:
+                    if int(v) == dv[1]:
+                        tgt = tb
+                flow(tgt, st)
+            else:
+                for v, tb in t["targets"]:
+                    flow(tb, st)
+                flow(t["otherwise"], st)
+    return [seen_ret[r] for r in sorted(seen_ret)], set(states) - {ENTRY}
+
+
+def check_container_drop(ctx, f, fn=None, label=None):
+    """`drop_payload` of the container answers "some filter of some list matches the payload".  Whatever its shape, the
+    places where it learns about a match are (loop form) a call `Filter::drop_payload(<element of an iteration over a
+    collection>, payload)` and (combinator form) `any` / `all` / `find` / `position` over a collection with a closure that
+    is that call or its negation.  Decided, by constant propagation over the CFG:
+      if       for every filter list there is such a place over the whole list from which, once it reports a match, every
+               return reached answers true — and, loop form, a non-matching element sends control back to the next one;
+      only if  with every such place reporting "no match", every return answers false."""
     VOF = SL + "ValidationOutputFilters"
+    fn = fn or VOF + "::drop_payload"
+    label = label or short(fn)
     adt = f.adts.get(VOF)
-    b = f.body(VOF + "::drop_payload")
+    b = f.body(fn)
     if adt is None or b is None:
-        return ctx.missing("R-SIB", "ValidationOutputFilters::drop_payload", VOF)
+        return ctx.missing("R-SIB", label, fn)
     ctx.saw_fn(b.name)
     oc = outcome(b)
     sy = oc.sym
@@ -727,92 +952,169 @@ def check_container_drop(ctx, f):
             fields.append((fl["name"], m.group(1)))
     ctx.floor("R-SIB", "filter lists with a drop_payload element method", len(fields), 3)
     payload = b.local_name(2) or "_2"
-    try:
-        ps = OL.paths(b, sy)            # loop-free (iterator combinators): decided path by path
-    except OL.NotComparisonOnly:
-        ps = None
+    own = r"\bself\.(%s)\b" % "|".join(re.escape(n) for n, _ in fields) if fields else r"$^"
+    elem_keys = {ety + "::drop_payload" for _, ety in fields}
 
-    # the places where "some element of a collection matches" is computed:
-    #   loop form        Filter::drop_payload(<element of an iteration over C>, payload), looked at inside the loop
-    #   combinator form  C.iter().any(|x| Filter::drop_payload(x, payload))
-    sources = []        # dicts: key (callee), coll (term iterated), payload_ok, drops (a match makes the function return true), text
+    sources = []    # dicts: key (callee), coll (term iterated), bb, match / nomatch (value of the call's result), form, next_bb
     for c in b.calls():
-        if b.is_cleanup(c.bb) or not c.is_static or c.name != "drop_payload":
+        if b.is_cleanup(c.bb) or not c.is_static or c.name != "drop_payload" or c.res not in elem_keys:
             continue
         a = K.arg_terms(c)
         coll = _element_of(a[0]) if a else None
-        t_ok = False
-        for bi, blk in enumerate(b.blocks):
-            t = blk["term"]
-            if t["t"] == "switch" and t.get("dty") == "bool":
-                at = bool_atom(sy.operand(t["discr"]))
-                if at and isinstance(at[0], tuple) and at[0][1] == c.res and (at[1] and (strip_deep(at[1][0]) == a[0])):
-                    e = switch_bool_edges(b, bi)
-                    true_t = e[1] if at[3] else e[0]
-                    reach = b.reachable(true_t, removed_blocks=oc.fail_blocks)
-                    # on the true edge the function must return true without consulting anything else
-                    t_ok = any(r in reach for r in oc.returns()) and not any(b.term(x)["t"] == "switch" for x in reach)
-        sources.append({"key": c.res, "coll": coll, "payload_ok": len(a) == 2 and render(a[1]) == payload, "drops": t_ok,
-                        "text": [render(x) for x in a], "form": "loop"})
-    any_atoms = {}
-    for c, name, ct in K.combinator_calls(f, b, r".", names=("any",)):
-        key, pred_ok = _closure_is_pred(f, ct, payload)
-        if key is None:
+        nxt = None
+        if coll is not None:
+            e = strip_deep(a[0])
+            while e[0] == "field":
+                e = strip_deep(e[1])
+            if e[0] == "variant":
+                nxt = (strip_deep(e[1])[3] or {}).get("bb")
+        sources.append({"key": c.res, "coll": coll, "bb": c.bb, "payload_ok": len(a) == 2 and render(a[1]) == payload,
+                        "match": _T, "nomatch": _F, "form": "loop", "next_bb": nxt, "text": [render(x) for x in a],
+                        "dest": c.dest, "target": c.target})
+    for c in b.calls():
+        # a predicate closure applied to an element by hand (`matches(filter)` in a loop of a higher-order helper)
+        if b.is_cleanup(c.bb) or not c.is_static or c.name not in ("call", "call_mut", "call_once") or \
+                c.trait not in ("std::ops::Fn", "std::ops::FnMut", "std::ops::FnOnce") or len(c.args) != 2:
             continue
         a = K.arg_terms(c)
-        text = render(strip_deep(sy.call(b.term(c.bb), c.bb)))
-        drops = False
-        if ps is not None and pred_ok:
-            drops = True
-            for conds, ret in ps:
-                contradicted = False
-                for at, truth in conds:
-                    while at[0] == "not":
-                        at, truth = at[1], not truth
-                    if at[0] == "opaque" and at[1] == text and not truth:
-                        contradicted = True
-                if contradicted:
-                    continue
-                r = OL.atom(ret) if ret is not None else ("opaque", "<nothing>")
-                neg = False
-                while r[0] == "not":
-                    r, neg = r[1], not neg
-                if r[0] == "const":
-                    if bool(r[1]) == neg:           # returns false although this list has a matching filter
-                        drops = False
-                elif not (r[0] == "opaque" and r[1] == text and not neg):
-                    drops = False
-        if pred_ok:
-            any_atoms[text] = key
-        sources.append({"key": key, "coll": a[0], "payload_ok": pred_ok, "drops": drops, "text": [render(x) for x in a],
-                        "form": "any"})
+        ct, tup = strip(a[0]), strip_deep(a[1])
+        if ct[0] != "closure" or tup[0] != "agg" or tup[1] != "tuple" or len(tup[3]) != 1:
+            continue
+        key, pol = _closure_pred(f, ct, payload)
+        if key is None or key not in elem_keys:
+            continue
+        elem = tup[3][0][1]
+        coll = _element_of(elem)
+        nxt = None
+        if coll is not None:
+            e = strip_deep(elem)
+            while e[0] == "field":
+                e = strip_deep(e[1])
+            if e[0] == "variant":
+                nxt = (strip_deep(e[1])[3] or {}).get("bb")
+        vals = {1: (_T, _F), -1: (_F, _T)}.get(pol)
+        sources.append({"key": key, "coll": coll, "bb": c.bb, "payload_ok": vals is not None,
+                        "match": vals[0] if vals else None, "nomatch": vals[1] if vals else None, "form": "loop",
+                        "next_bb": nxt, "text": [render(x) for x in a], "dest": c.dest, "target": c.target})
+    for c, name, ct in K.combinator_calls(f, b, r".", names=("any", "all", "find", "position")):
+        key, pol = _closure_pred(f, ct, payload)
+        if key is None or key not in elem_keys:
+            continue
+        a = K.arg_terms(c)
+        vals = {("any", 1): (_T, _F), ("all", -1): (_F, _T), ("find", 1): (_SOME, _NONE), ("position", 1): (_SOME, _NONE)}.get((name, pol))
+        sources.append({"key": key, "coll": a[0], "bb": c.bb, "payload_ok": vals is not None,
+                        "match": vals[0] if vals else None, "nomatch": vals[1] if vals else None, "form": name,
+                        "next_bb": None, "text": [render(x) for x in a], "dest": c.dest, "target": c.target})
+
+    def drops(s_):
+        """Once this place reports a match the function answers true; a non-matching element does not end the scan."""
+        if s_["match"] is None or s_["dest"] is None or s_["dest"]["p"] or s_["target"] is None:
+            return False, "result not kept"
+        rets, _ = const_prop(b, s_["target"], {s_["dest"]["l"]: s_["match"]}, {})
+        if not rets or any(r != _T for r in rets):
+            return False, "after a match the function may answer %s" % sorted({str(r) for r in rets})
+        if s_["form"] == "loop":
+            if s_["next_bb"] is None:
+                return False, "not an element of an iteration"
+            rets, _ = const_prop(b, s_["target"], {s_["dest"]["l"]: s_["nomatch"]}, {}, barrier={s_["next_bb"]})
+            if rets:
+                return False, "a non-matching element ends the scan"
+        return True, None
 
     for fname, ety in fields:
         key = ety + "::drop_payload"
         mine = [s_ for s_ in sources if s_["key"] == key]
-        ok = any(s_["coll"] is not None and whole_list(f, b, sy, s_["coll"], fname) and s_["payload_ok"] and s_["drops"] for s_ in mine)
-        ctx.ob("R-SIB", "ValidationOutputFilters::drop_payload:consults-%s" % fname, ok,
+        ok = False
+        det = []
+        for s_ in mine:
+            whole = s_["coll"] is not None and whole_list(f, b, sy, s_["coll"], fname)
+            d_ok, why_not = drops(s_) if whole and s_["payload_ok"] else (False, None)
+            det.append({"form": s_["form"], "applies": s_["text"], "whole_list": whole, "payload_ok": s_["payload_ok"],
+                        "drops": d_ok if why_not is None else why_not})
+            ok = ok or (whole and s_["payload_ok"] and d_ok)
+        ctx.ob("R-SIB", "%s:consults-%s" % (label, fname), ok,
                "drop_payload applies every %s filter (self.%s) to the payload and drops on a match" % (short(ety), fname),
-               where=b.loc, detail=[{k: v for k, v in s_.items() if k != "coll"} for s_ in mine] or "no call to %s" % key)
-    # only-if: true is returned only behind a matching filter
-    if ps is not None and any_atoms:
-        def lit(a):
-            if a[0] == "opaque" and a[1] in any_atoms:
-                return True
-            return None
-        ok, why_not = OL.implies(b, sy, True, lit)
-        detail = None if ok else why_not
-    else:
-        g = pred_matcher(r"(PrefixFilter|BgpsecFilter|AspaFilter)::drop_payload$", ())
-        mp = MustPass(f, lambda c: False, guard_fn=lambda bd, s, bb: guard_edges(bd, s, bb, g), name="some filter matched")
-        ok = mp.holds(b.name)
-        detail = None if ok else K.why(f, mp, b.name)
-    ctx.ob("R-SIB", "ValidationOutputFilters::drop_payload:true-only-on-match", ok,
-           "drop_payload returns true only on the true edge of some filter's drop_payload", where=b.loc, detail=detail)
+               where=b.loc, detail=det or "no call to %s" % key)
+    # only-if: with no filter of the container matching, the answer is false
+    assumed = {}
+    for s_ in sources:
+        from_own = s_["coll"] is not None and _mentions(sy, s_["coll"], own)
+        if from_own and s_["payload_ok"] and s_["nomatch"] is not None:
+            assumed[s_["bb"]] = s_["nomatch"]
+    rets, _ = const_prop(b, 0, {}, assumed)
+    ok = bool(assumed) and bool(rets) and all(r == _F for r in rets)
+    ctx.ob("R-SIB", "%s:true-only-on-match" % label, ok,
+           "drop_payload returns true only when some filter's drop_payload does", where=b.loc,
+           detail=None if ok else {"answers_without_any_match": sorted({str(r) for r in rets}), "places": len(assumed)})
 
 
 # ---------------------------------------------------------------------------------------------
 # C15.c — iter_payload is the concatenation of the three assertion lists, each mapped through to_payload
+
+def raw_success_values(body):
+    """As engine.rules.success_values, the terms left as written (conversions not yet looked through)."""
+    oc = outcome(body)
+    out = []
+    for bi in sorted(oc.success_assign_blocks):
+        blk = body.blocks[bi]
+        for si, st in enumerate(blk["stmts"]):
+            if st["s"] == "assign" and not st["pl"]["p"] and st["pl"]["l"] in oc.carriers:
+                t = oc.sym.rvalue(st["rv"])
+                if not oc._is_fail_term(t) and not (strip_deep(t)[0] == "var" and strip_deep(t)[2] in oc.carriers):
+                    out.append((bi, si, t))
+        t = blk["term"]
+        if t["t"] == "call" and not t["dest"]["p"] and t["dest"]["l"] in oc.carriers:
+            out.append((bi, "term", oc.sym.call(t, bi)))
+    return out
+
+
+def construct_nf(f, t, depth=0):
+    """Normal form of a value that is put together from parts: constructor functions of the crate (`Payload::origin`,
+    `RouteOrigin::new`, `From` impls, …) are replaced by what they return — with their parameters replaced by the
+    arguments — down to struct / enum literals.  How many constructor layers a value goes through, and what they are
+    called, is not part of what it consists of."""
+    from engine.sym import is_transparent_call
+
+    def conv(t):
+        # a conversion implemented by the crate: `From::from` resolved to an impl here, or `x.into()` — by std's blanket
+        # impl the `From` impl of the target type
+        info = t[3] or {}
+        if info.get("name") == "from" and t[1] in f.bodies:
+            return t[1]
+        ga = info.get("ga") or ()
+        if info.get("name") == "into" and info.get("trait") == "std::convert::Into" and len(ga) == 2:
+            n = "<%s as std::convert::From<%s>>::from" % (ga[1], ga[0])
+            if n in f.bodies:
+                return n
+        return None
+    while is_transparent_call(t) and conv(t) is None:
+        t = t[2][0]
+    k = t[0]
+    if k == "call":
+        args = tuple(construct_nf(f, a, depth) for a in t[2])
+        cb = f.body(conv(t) or t[1]) if depth < 6 else None
+        if cb is not None and cb.arg_count == len(args) and not cb.is_coroutine:
+            vals = raw_success_values(cb)
+            plain = all(b_["term"]["t"] in ("return", "goto", "call", "drop", "unreachable", "resume") for b_ in cb.blocks)
+            if len(vals) == 1 and plain:
+                mapping = {(cb.local_name(i + 1) or "_%d" % (i + 1)): args[i] for i in range(cb.arg_count)}
+                return construct_nf(f, K._subst(vals[0][2], mapping), depth + 1)
+        return ("call", t[1], args, t[3])
+    if k == "agg":
+        return ("agg", t[1], t[2], tuple((n, construct_nf(f, v, depth)) for n, v in t[3]))
+    if k == "field":
+        base = construct_nf(f, t[1], depth)
+        if base[0] == "agg":
+            for n, v in base[3]:
+                if str(n) == str(t[2]):
+                    return v
+        return ("field", base, t[2], t[3] if len(t) > 3 else None)
+    if k == "variant":
+        return ("variant", construct_nf(f, t[1], depth), t[2])
+    if k == "mvar":
+        return construct_nf(f, t[3], depth)
+    return t
+
 
 def _maps_through(f, fn_term):
     """The function a `map` applies, if it is `X::to_payload` itself or a closure `|x| x.to_payload()` -> def path."""
@@ -831,9 +1133,9 @@ def _maps_through(f, fn_term):
     return None
 
 
-def check_iter_payload(ctx, f, want):
+def check_iter_payload(ctx, f, want, fn=None):
     LA = SL + "LocallyAddedAssertions"
-    ib = f.body(LA + "::iter_payload")
+    ib = f.body(fn or LA + "::iter_payload")
     adt = f.adts.get(LA)
     if ib is None or adt is None:
         return ctx.missing("R-FLOW", "iter_payload", LA + "::iter_payload")
@@ -856,6 +1158,29 @@ def check_iter_payload(ctx, f, want):
             split(t[2][1])
         elif info.get("name") == "map" and info.get("trait") == "std::iter::Iterator" and len(t[2]) == 2:
             leaves.append((t[2][0], _maps_through(f, t[2][1])))
+        elif info.get("name") == "flat_map" and info.get("trait") == "std::iter::Iterator" and len(t[2]) == 2 \
+                and strip(t[2][1])[0] == "closure":
+            # `opt.iter().flat_map(|list| list.iter().map(g))` is `opt.iter().flatten().map(g)`
+            from engine import sym as symmod
+            cb, m = K.closure_env(f, strip(t[2][1]), "<element>")
+            inner = []
+            if cb is not None:
+                with symmod.substituting(m):
+                    for _, _, v in success_values(cb):
+                        v = strip_deep(v)
+                        vi = (v[3] or {}) if v[0] == "call" else {}
+                        if vi.get("name") == "map" and vi.get("trait") == "std::iter::Iterator" and len(v[2]) == 2 \
+                                and render(_unmut(v[2][0])) == "<element>":
+                            inner.append(_maps_through(f, v[2][1]))
+                        else:
+                            inner.append(None)
+            if len(inner) == 1 and inner[0] is not None:
+                leaves.append((("call", "Iterator::flatten", (t[2][0],), symmod._Info({"name": "flatten", "trait": "std::iter::Iterator",
+                                                                                    "res": "Iterator::flatten"})), inner[0]))
+            else:
+                other.append(render(t)[:160])
+        elif info.get("name") == "empty" and re.match(r"^(std|core)::iter::", info.get("fn") or "") and not t[2]:
+            pass        # `iter::empty().chain(..)`: contributes nothing
         else:
             other.append(render(t)[:160])
     for v in vals:
